@@ -14,9 +14,14 @@ links, byte sizes, host:port, sort specs, globs, URLs; also non-UTF-8 argv on th
 in-process PANIC / DIED is re-run on the real binary, and only the real binary decides.
 
 Direct oracle (independent of the model): the process ends with status 0, or status 1 with an
-`error:` diagnostic on standard error; anything else (101, a signal, a timeout) is a failure.
-Correspondence: the extracted Crash model's class (ok / err) against the exit status."""
-import json, os, re, shutil, sys, tempfile, time, urllib.parse
+`error:` diagnostic on standard error; anything else (101, a signal, a timeout) is a failure. For
+multi-file torrents shown in terminal layout the file tree is part of the oracle: the lines a
+recursive reading of the path lists draws (the number of lines for the very deep corpus entries,
+whose output runs to gigabytes and is counted while it streams).
+Correspondence: the extracted Crash model's class (ok / err) against the exit status, and the
+model's file tree (Crash.directory_rows) against the tree the implementation prints."""
+import json, os, re, shutil, subprocess, sys, tempfile, time, urllib.parse
+from concurrent.futures import ThreadPoolExecutor
 import lib
 
 sys.setrecursionlimit(max(sys.getrecursionlimit(), 20000))   # the oracle-side bencode reader recurses per nesting level
@@ -25,8 +30,10 @@ MODEL_MAX = 20000    # bytes; the extracted model re-measures the rest of the in
 MANIFEST = dict(
     text="Machine-checked proof that the Gallina model of the input paths of show/link/verify/dump/stats and of the argument "
          "stage never reaches one of its explicit panic primitives (unwrap on None, index out of bounds, u64/usize overflow in the "
-         "debug profile, stack budget), with every panic site of the anchored sources inventoried from the current tree and "
-         "classified; tied to the real binary by structure-aware fuzzing whose exit status is compared with the model's class. "
+         "debug profile, String::truncate off a character boundary, stack budget), with every panic site of the anchored sources "
+         "inventoried from the current tree and classified; the loops that build, draw and drop the file tree of the terminal layout are "
+         "proved equal to the recursive code they replaced, for trees of any depth; tied to the real binary by structure-aware fuzzing whose "
+         "exit status is compared with the model's class and whose file trees are compared with the model's and an independent drawing. "
          "Right level: crash-freedom is universal over an unbounded input space with value-dependent failing points.",
     ref="DESIGN.md section 5, C08",
     technique="Coq proof over a Gallina model + translator-generated panic-site inventory + fuzzing correspondence on the real binary",
@@ -336,6 +343,44 @@ LITERALS = [b"", b"x", b"i0e", b"de", b"le", b"0:", b"e", b"d", b"l", b"i", b"i-
             b"18446744073709551615:a", b"d0:0:e", b"di0ei0ee", b"dlei0ee", b"d1:b0:1:a0:e", b"i9223372036854775808e", b"i-9223372036854775809e"]
 
 
+def count_tree_nodes(plist):
+    """number of nodes of the file tree of a list of paths: the distinct non-empty prefixes (a trie, walked without recursion)"""
+    root, n = {}, 0
+    for q in plist:
+        node = root
+        for c in q:
+            nxt = node.get(c)
+            if nxt is None:
+                nxt = node[c] = {}
+                n += 1
+            node = nxt
+    return n
+
+
+_BIG = []
+
+
+def big_corpus():
+    """corpus entries whose terminal rendering is too large to hold in memory: (label, bytes, expected stdout lines of
+    `imdl --terminal torrent show`, last name drawn). The witnesses of the repaired finding deep-path-terminal: one path of 50000 and of
+    200000 components, and 3000 files below a common prefix of 2000 components. The table of such a torrent has eight rows
+    (Name, Info Hash, Torrent Size, Content Size, Private, Piece Size, Piece Count, File Count) before the Files row, which
+    is the root and one line per node of the tree."""
+    if _BIG:
+        return _BIG
+    head = b"d4:infod5:filesl"
+    tail = b"e4:name1:n12:piece lengthi16384e6:pieces0:ee"
+    for n in (50000, 200000):
+        data = head + b"d6:lengthi1e4:pathl" + b"1:x" * n + b"ee" + tail
+        _BIG.append(("corpus-deep-path-%d" % n, data, 8 + 1 + count_tree_nodes([[b"x"] * n]), b"x"))
+    pre = [b"p%d" % i for i in range(2000)]
+    pre_enc = b"".join(b"%d:%s" % (len(c), c) for c in pre)
+    leaves = [b"f%04d" % i for i in range(3000)]
+    data = head + b"".join(b"d6:lengthi1e4:pathl" + pre_enc + b"%d:%s" % (len(l), l) + b"ee" for l in leaves) + tail
+    _BIG.append(("corpus-shared-prefix-2000x3000", data, 8 + 1 + count_tree_nodes([pre + [l] for l in leaves]), leaves[-1]))
+    return _BIG
+
+
 def corpus():
     """regression corpus: the witnesses of the five defects confirmed on the unrepaired tree (DESIGN.md section 6) run first"""
     single = lambda **kw: enc(dsort([(b"info", dsort([(b"length", 5), (b"name", b"n"), (b"piece length", 16384), (b"pieces", bytes(20))] + list(kw.get("info", [])))),
@@ -358,7 +403,7 @@ def corpus():
         ("corpus-nest-list-200000", b"l" * 200000 + b"e" * 200000),
         ("corpus-nest-dict-100000", b"d1:a" * 100000 + b"i0e" + b"e" * 100000),
         ("corpus-nest-in-info", b"d4:info" + b"l" * 200000 + b"e" * 200000 + b"e"),
-        ("corpus-deep-path-50000", multi_path([b"x"] * 50000)),
+        ("corpus-path-3000-components", multi_path([b"x"] * 3000)),
         ("corpus-valid", single(top=[(b"creation date", 1600000000)])),
         ("corpus-duplicate-path", multi_paths([[b"a", b"b"], [b"a", b"b"]])),
         ("corpus-duplicate-path-apart", multi_paths([[b"a"], [b"b"], [b"a"]])),
@@ -383,8 +428,12 @@ CMDS = ["show", "showjson", "showterm", "link", "verify", "dump", "stats"]
 
 
 def pack(data):
+    """a byte string as JSON: hex; or, when large, runs of equal bytes, or one periodic stretch (`unit` repeated) between two literal ends"""
     if len(data) <= 4096:
         return {"hex": data.hex()}
+    for label, big, _, _ in (_BIG if len(data) > 1000000 else []):
+        if big == data:
+            return {"corpus": label}      # rebuilt by big_corpus()
     runs = []
     for b in data:
         if runs and runs[-1][0] == b:
@@ -392,13 +441,31 @@ def pack(data):
         else:
             runs.append([b, 1])
         if len(runs) > 3000:
-            return {"hex": data.hex()}
-    return {"rle": runs}
+            break
+    else:
+        return {"rle": runs}
+    for period in range(2, 9):
+        x = (int.from_bytes(data[:-period], "big") ^ int.from_bytes(data[period:], "big")).to_bytes(len(data) - period, "big")
+        m = max(re.finditer(rb"\x00+", x), key=lambda m: m.end() - m.start(), default=None)
+        if m is None:
+            continue
+        start, count = m.start(), (m.end() - m.start()) // period + 1
+        end = start + count * period
+        if len(data) - (end - start) <= 4096:
+            p = {"head": data[:start].hex(), "unit": data[start:start + period].hex(), "count": count, "tail": data[end:].hex()}
+            if unpack({"repeat": p}) == data:
+                return {"repeat": p}
+    return {"hex": data.hex()}
 
 
 def unpack(p):
     if "hex" in p:
         return bytes.fromhex(p["hex"])
+    if "corpus" in p:
+        return next(d for l, d, _, _ in big_corpus() if l == p["corpus"])
+    if "repeat" in p:
+        q = p["repeat"]
+        return bytes.fromhex(q["head"]) + bytes.fromhex(q["unit"]) * q["count"] + bytes.fromhex(q["tail"])
     return b"".join(bytes([b]) * n for b, n in p["rle"])
 
 
@@ -420,9 +487,6 @@ def abnormal(rc, err):
 def failure_key(cmd, rc, err, label=""):
     e = ANSI.sub(b"", err).decode("utf-8", "replace")
     if "overflowed its stack" in e or rc == -11 or (rc == -6 and "panicked" not in e):
-        # the open finding: terminal layout of a very deep file path (Tree recursion in src/table.rs)
-        if cmd == "showterm" and label.startswith(("corpus-deep-path", "deep-path")):
-            return "deep-path-terminal"
         return "stack-overflow"
     m = re.search(r"panicked at ([^\s:]+):", e)
     if m:
@@ -435,17 +499,164 @@ def failure_key(cmd, rc, err, label=""):
     return "abnormal-rc%s" % rc
 
 
-def run_real(ctx, tmp, data, cmd, via_stdin, timeout=120):
+COUNTER = r"""
+import json, os, sys
+lines = n = 0
+head = b""
+tail = b""
+while True:
+    chunk = os.read(0, 1 << 20)
+    if not chunk:
+        break
+    lines += chunk.count(b"\n")
+    n += len(chunk)
+    if len(head) < 65536:
+        head += chunk[:65536 - len(head)]
+    tail = chunk[-4096:] if len(chunk) >= 4096 else (tail + chunk)[-4096:]
+sys.stdout.write(json.dumps({"lines": lines, "bytes": n, "head": head.hex(), "tail": tail.hex()}))
+"""
+
+
+def run_counting(argv, cwd, stdin, env, timeout):
+    """like lib.run_cmd, for output too large to keep: standard output goes through a pipe into a separate counting process
+    (a thread of this process would have to take the interpreter lock for every megabyte of 40 GB while the run is busy).
+    Returns (rc, first 64 KiB of stdout, stderr, {"lines":, "bytes":, "tail": last 4 KiB})."""
+    e = {"PATH": os.environ.get("PATH", ""), "HOME": os.environ.get("HOME", "/root"), "RUST_BACKTRACE": "0"}
+    e.update(env or {})
+    with tempfile.TemporaryFile() as ef, tempfile.TemporaryFile() as inf:
+        inf.write(stdin)
+        inf.seek(0)
+        p = subprocess.Popen(argv, cwd=cwd, stdin=inf, stdout=subprocess.PIPE, stderr=ef, env=e, bufsize=0)
+        try:
+            import fcntl
+            fcntl.fcntl(p.stdout.fileno(), 1031, 1 << 20)      # F_SETPIPE_SZ: fewer context switches for tens of gigabytes
+        except Exception:
+            pass
+        c = subprocess.Popen([sys.executable, "-c", COUNTER], stdin=p.stdout, stdout=subprocess.PIPE, stderr=subprocess.DEVNULL)
+        p.stdout.close()
+        timed_out = False
+        try:
+            cout, _ = c.communicate(timeout=timeout)
+            rc = p.wait(timeout=30)
+        except subprocess.TimeoutExpired:
+            timed_out = True
+            p.kill()
+            c.kill()
+            p.wait()
+            cout, _ = c.communicate()
+        try:
+            st = json.loads(cout)
+            st["tail"] = bytes.fromhex(st["tail"])
+            head = bytes.fromhex(st.pop("head"))
+        except Exception:
+            st, head = {"lines": 0, "bytes": 0, "tail": b""}, b""
+        n_err = ef.seek(0, 2)
+        ef.seek(0)
+        err = ef.read(1 << 20)
+        if n_err > (2 << 20):       # `verify` names every missing file: keep both ends, the `error:` line comes last
+            ef.seek(n_err - (1 << 20))
+            err += b"\n[...]\n" + ef.read()
+        else:
+            err += ef.read()
+        if timed_out:
+            return 124, head, err + b"[timeout]", st
+        return p.returncode, head, err, st
+
+
+def run_real(ctx, tmp, data, cmd, via_stdin, timeout=120, stats=None):
+    """the real binary on one input; with `stats` (a dict) standard output is counted instead of kept"""
     d = tempfile.mkdtemp(dir=tmp)
     try:
         if cmd == "stats" or not via_stdin:
             with open(os.path.join(d, "t.torrent"), "wb") as f:
                 f.write(data)
         target = "-" if (via_stdin and cmd != "stats") else "t.torrent"
+        if stats is not None:
+            rc, out, err, st = run_counting([ctx.bins["imdl"]] + argv_for(cmd, target)[1:], d, data if target == "-" else b"", {"NO_COLOR": "1"}, timeout)
+            stats.update(st)
+            return rc, out, err
         rc, out, err = ctx.imdl(argv_for(cmd, target)[1:], cwd=d, stdin=data if target == "-" else b"", env={"NO_COLOR": "1"}, timeout=timeout)
         return rc, out, err
     finally:
         shutil.rmtree(d, ignore_errors=True)
+
+
+# ------------------------------------------------------------------ the file tree of the terminal layout (oracle side)
+
+def tree_oracle(data):
+    """The lines of the file tree `torrent show` draws in terminal layout for a multi-file torrent, from an independent
+    reading of the file: the paths in the derived order of FilePath (component lists compared as byte strings), a child
+    per distinct next component in order of first appearance, drawn by recursion on the tree exactly as the code before
+    the repair of deep-path-terminal drew it (root; then per child the connectors of its ancestors and its own).
+    None when the torrent is not a plain multi-file torrent or a name would break a line."""
+    try:
+        v, end = lib.bdecode_strict(data)
+        if end != len(data):
+            return None
+        info = lib.dget(v, "info")
+        if info is None or lib.dget(info, "length") is not None:
+            return None
+        files, root = lib.dget(info, "files"), lib.dget(info, "name")
+        if not isinstance(files, list) or not isinstance(root, bytes):
+            return None
+        plist = []
+        for f in files:
+            q = lib.dget(f, "path") if isinstance(f, tuple) else None
+            if not isinstance(q, list) or not all(isinstance(c, bytes) for c in q):
+                return None
+            plist.append(q)
+    except Exception:
+        return None
+    if any(b"\n" in c for q in plist for c in q) or b"\n" in root:
+        return None
+    if any(len(q) > 5000 for q in plist):
+        return None     # drawn by recursion here: the very deep trees are judged by their line count (big_corpus)
+    plist.sort()
+    tree = [root, []]
+
+    def insert(node, q):
+        if not q:
+            return
+        for child in node[1]:
+            if child[0] == q[0]:
+                return insert(child, q[1:])
+        child = [q[0], []]
+        insert(child, q[1:])
+        node[1].append(child)
+
+    for q in plist:
+        insert(tree, q)
+    lines = [root]
+    corner, tee, blank, bar = ("\u2514\u2500".encode(), "\u251c\u2500".encode(), b"  ", "\u2502 ".encode())
+
+    def draw(node, anc):
+        # anc: what the lines of this node's children start with (two columns per ancestor below the root: blank under a
+        # last child, a bar otherwise); then the connector of the child itself and its name
+        for i, child in enumerate(node[1]):
+            last = i == len(node[1]) - 1
+            lines.append(anc + (corner if last else tee) + child[0])
+            draw(child, anc + (blank if last else bar))
+
+    draw(tree, b"")
+    return lines
+
+
+def tree_block(out, n):
+    """the last n lines of a terminal-layout table, the label `Files` and the indentation removed; None if they are not the Files row"""
+    text = ANSI.sub(b"", out)
+    if not text.endswith(b"\n"):
+        return None
+    ls = text[:-1].split(b"\n")
+    if len(ls) < n:
+        return None
+    ls = ls[len(ls) - n:]
+    m = re.match(rb"^( *Files  )", ls[0])
+    if not m:
+        return None
+    w = len(m.group(1))
+    if any(l[:w] != b" " * w for l in ls[1:]):
+        return None
+    return [l[w:] for l in ls]
 
 
 def ddmin(data, still_fails, budget):
@@ -658,7 +869,23 @@ def run(ctx):
     r = ctx.rng
     tmp = tempfile.mkdtemp(prefix="c08-")
     seen_keys = {}
+    bigpool = ThreadPoolExecutor(6)
     try:
+        # ---------------- the very deep corpus entries start now and are collected in section B: their terminal rendering is
+        # quadratic in the depth (2.5 GB and 40 GB of standard output), read and counted while the other sections run
+        bigjobs = []
+        for label, data, want_lines, last_name in big_corpus():
+            small_one = label == "corpus-deep-path-50000"
+            for cmd in (["showterm", "show", "showjson"] + (["link", "verify", "dump", "stats"] if small_one or ctx.thorough else [])):
+                for via in ([False, True] if (small_one or ctx.thorough) and cmd != "stats" else [False]):
+                    bigjobs.append((label, data, cmd, via, want_lines, last_name))
+        bigjobs.sort(key=lambda j: (j[2] != "showterm", -len(j[1])))
+
+        def run_big(job):
+            st = {}
+            rc, out, err = run_real(ctx, tmp, job[1], job[2], job[3], timeout=ctx.n(170, 900), stats=st)
+            return rc, out, err, st
+        bigfut = [(job, bigpool.submit(run_big, job)) for job in bigjobs]
         # ---------------- cases
         cases = list(corpus()) + [("literal", b) for b in LITERALS]
         n_in = ctx.n(5000, 60000)
@@ -683,14 +910,14 @@ def run(ctx):
                 return
             seen_keys[(cmd, key)] = 1
             # shrink on the real binary, keeping the same failure class
-            if data is not None and argv is None and not ctx.known.match(ctx.pid, key):
+            if data is not None and argv is None and len(data) <= 2000000 and not ctx.known.match(ctx.pid, key):
                 budget = [ctx.n(40, 200)]
 
                 def still(b):
-                    rc2, _, err2 = run_real(ctx, tmp, b, cmd, via, timeout=20)
+                    rc2, _, err2 = run_real(ctx, tmp, b, cmd, via, timeout=20, stats={})
                     return abnormal(rc2, err2) is not None and failure_key(cmd, rc2, err2, label) == key
                 small_data = ddmin(data, still, budget) if len(data) > 1 else data
-                rc, out, err = run_real(ctx, tmp, small_data, cmd, via)
+                rc, out, err = run_real(ctx, tmp, small_data, cmd, via, stats={})
                 data = small_data
             target = "-" if (via and cmd != "stats") else "t.torrent"
             case = {"command": cmd, "argv": argv or argv_for(cmd, target), "via_stdin": bool(via), "mutation": label,
@@ -725,6 +952,7 @@ def run(ctx):
         lib.log("c08: %d in-process runs over %d inputs in %.0fs" % (len(lines), len(small), time.time() - t0))
         impl_class = {}
         confirm = []
+        term_out = {}
         for (ci, cmd, via), rep in zip(meta, replies):
             label, data = small[ci]
             ctx.cov["evaluations"] += 1
@@ -736,6 +964,8 @@ def run(ctx):
                 if why:
                     confirm.append((ci, cmd, via, "in-process: " + why))
                 impl_class.setdefault((ci, cmd), set()).add(rc)
+                if cmd == "showterm" and rc == 0 and not via:
+                    term_out[ci] = lib.unhex(f[2])
                 ctx.distinct((label.split("-")[0], cmd, rc))
                 ctx.count("class:%s:%s" % (cmd, "ok" if rc == 0 else "err"))
             else:
@@ -743,6 +973,31 @@ def run(ctx):
                 ctx.count("inproc-panic:%s" % cmd)
         for label, _ in small:
             ctx.count("mutation:" + (re.sub(r"\d+$", "", label) if label.startswith("nest") else label))
+
+        # the file tree of every multi-file torrent shown in terminal layout against the recursive drawing of its path lists
+        want_tree = {}
+        for ci, out in sorted(term_out.items()):
+            label, data = small[ci]
+            want = tree_oracle(data)
+            if want is None:
+                continue
+            want_tree[ci] = want
+            ctx.cov["evaluations"] += 1
+            ctx.count("tree-oracle:%s" % ("1" if len(want) == 1 else "2-9" if len(want) < 10 else "10-99" if len(want) < 100 else "100+"))
+            ctx.distinct(("tree", label.split("-")[0], min(len(want), 20), max(len(l) for l in want) > 40))
+            got = tree_block(out, len(want))
+            if got != want:
+                k = next((i for i, (a, b) in enumerate(zip(got or [], want)) if a != b), None)
+                ctx.violation("oracle-failure", "imdl --terminal torrent show draws a file tree that is not the tree of the torrent's path "
+                              "lists (%s input, %d lines expected, first difference at line %s: %r instead of %r)" %
+                              (label, len(want), k, (got or [None] * len(want))[k] if k is not None else (None if got is None else len(got)),
+                               want[k] if k is not None else len(want)),
+                              {"command": "showterm", "argv": argv_for("showterm", "t.torrent"), "mutation": label, "input": pack(data), "input_len": len(data),
+                               "expected_tree": [l.decode("utf-8", "replace") for l in want[:60]],
+                               "stdout_tail": ANSI.sub(b"", out).decode("utf-8", "replace")[-3000:],
+                               "reproduce": "write the bytes of `input` to t.torrent (tools/props/c08.py unpack), then: NO_COLOR=1 imdl --terminal torrent show --input t.torrent"},
+                              key="tree-rendering")
+        lib.log("c08: %d file trees compared with the oracle" % len(want_tree))
 
         # every in-process hit is confirmed on the real binary (bounded per command/label so the unrepaired tree stays quick)
         per = {}
@@ -771,7 +1026,8 @@ def run(ctx):
             for cmd in ("show", "link", "dump", "verify"):
                 procs.append((label, data, cmd, True))
         for label, data in deep_cases:
-            for cmd in (CMDS if label.startswith("deep-path") else r.sample(CMDS, 3) + ["link", "dump"]):
+            # (the terminal layout of a path of 10^6 components would be 10^12 bytes; big_corpus() covers it up to 200000)
+            for cmd in ([c for c in CMDS if c != "showterm"] if label.startswith("deep-path") else r.sample(CMDS, 3) + ["link", "dump"]):
                 procs.append((label, data, cmd, r.random() < .4))
         sample = r.sample(small, min(len(small), ctx.n(160, 2500)))
         for label, data in sample:
@@ -792,6 +1048,27 @@ def run(ctx):
                     ctx.violation("model-impl-disagreement", "run_cli hook and real binary end differently for %s on %s" % (cmd, label),
                                   {"command": cmd, "input": pack(data), "binary_rc": rc, "inproc_rc": sorted(impl_class[(ci, cmd)])})
         ctx.sample({"command": "dump", "input": "6c x 200000 65 x 200000", "note": "deep nesting runs only on the real binary"})
+        for (label, data, cmd, via, want_lines, last_name), fut in bigfut:
+            rc, out, err, st = fut.result()
+            ctx.cov["evaluations"] += 1
+            ctx.count("process:%s" % cmd)
+            ctx.count("big:%s:%s:%s" % (label, cmd, "stdin" if via else "path"))
+            ctx.distinct(("big", label, cmd, via, rc))
+            bad = abnormal(rc, err)
+            if bad:
+                report(cmd, via, label, data, rc, out, err, bad)
+            elif cmd == "showterm":
+                lastline = st["tail"].rstrip(b"\n").split(b"\n")[-1]
+                if rc != 0 or st["lines"] != want_lines or not lastline.endswith("\u2500".encode() + last_name):
+                    ctx.violation("oracle-failure", "imdl --terminal torrent show on %s (%s): exit status %s, %d lines of standard output ending in %r; "
+                                  "the table has %d lines (8 rows, the root and one line per node of the file tree) and ends with the "
+                                  "node %r" % (label, "stdin" if via else "path", rc, st["lines"], lastline[-40:], want_lines, last_name),
+                                  {"command": cmd, "argv": argv_for(cmd, "-" if via else "t.torrent"), "via_stdin": bool(via), "mutation": label,
+                                   "input": pack(data), "input_len": len(data), "rc": rc, "stdout_lines": st["lines"], "stdout_bytes": st["bytes"],
+                                   "expected_lines": want_lines, "reproduce": "write the bytes of `input` to t.torrent (tools/props/c08.py unpack), "
+                                   "then: NO_COLOR=1 imdl --terminal torrent show --input t.torrent | wc -l"}, key="tree-rendering")
+        ctx.sample({"command": "showterm", "input": "info.files[0].path = [x]*200000", "expected stdout lines": 200009,
+                    "note": "40 GB of standard output, counted while it streams"})
 
         lib.log("c08: %d process runs done at %.0fs" % (len(procs), time.time() - ctx.t0))
         # ---------------- C. correspondence with the extracted model
@@ -832,6 +1109,28 @@ def run(ctx):
                                       "Crash.%s_model says %s but imdl %s exits %s on %s input %r" % (cmd, rep[3:], icmd, sorted(got), label, data[:80]),
                                       {"command": icmd, "input": pack(data), "model": rep, "impl_exit": sorted(got), "mutation": label,
                                        "note": "no abnormal end was observed for this input; the model and the code classify it differently"})
+            # the model's file tree (Crash.directory_rows: sort, iterative insert, explicit-stack rendering) against the tree the
+            # implementation printed and the oracle's
+            tcases = [ci for ci in sorted(want_tree) if len(small[ci][1]) <= MODEL_MAX]
+            tcases = sorted(r.sample(tcases, min(len(tcases), ctx.n(500, 20000))))
+            tlines = []
+            for ci in tcases:
+                urls, nodes = url_positions(small[ci][1])
+                tlines.append("tree %s %s %s" % (lib.hexs(small[ci][1]), lib.hexlist([u for u in urls if ext.url.get(u)]),
+                                                 lib.hexlist([n for n in nodes if ext.node.get(n)])))
+            for ci, rep in zip(tcases, ctx.model(tlines)):
+                label, data = small[ci]
+                ctx.cov["evaluations"] += 1
+                ctx.cov["traces_validated_against_impl"] += 1
+                got = tree_block(term_out[ci], len(want_tree[ci]))
+                mt = None if not rep.startswith("OK ") or rep == "OK none" else lib.unhexlist(rep[3:])
+                if mt != got:
+                    ctx.cov["disagreements_checked"] += 1
+                    ctx.violation("model-impl-disagreement", "Crash.directory_rows and imdl --terminal torrent show draw different file trees for %s input %r" %
+                                  (label, data[:80]), {"command": "showterm", "input": pack(data), "mutation": label, "model": rep[:2000],
+                                                       "impl_tree": None if got is None else [l.decode("utf-8", "replace") for l in got[:60]],
+                                                       "oracle_agrees_with": "model" if mt == want_tree[ci] else "implementation" if got == want_tree[ci] else "neither"})
+            ctx.count("model-trees-compared", len(tcases))
             # the model's UTF-8 validator against Python's (it stands for core::str::from_utf8)
             us = BADUTF8 + [b"", b"abc", "\u00e9\u20ac\U0001f4a9".encode(), b"\xf4\x8f\xbf\xbf", b"\xf0\x90\x80\x80", b"\xe0\xa0\x80", b"\xed\x9f\xbf", b"\xee\x80\x80",
                             b"\xe0\x9f\xbf", b"\xf0\x8f\xbf\xbf", b"\xc2\x80", b"\xc1\xbf", b"\xdf\xbf", b"\xef\xbf\xbf", b"\xf5\x80\x80\x80"]
@@ -916,6 +1215,7 @@ def run(ctx):
         ctx.sample({"mutations": sorted(set(re.sub(r"^nest\d+$", "nest", l) for l, _ in small))[:40]})
         lib.log("c08: argument runs done at %.0fs" % (time.time() - ctx.t0))
     finally:
+        bigpool.shutdown(wait=True, cancel_futures=True)
         shutil.rmtree(tmp, ignore_errors=True)
     return finish(ctx)
 
@@ -931,12 +1231,15 @@ def finish(ctx):
     return ctx.finish(
         rule="torrent bytes: regression corpus (witnesses of the five repaired defects) + literals + one structured mutation of a fresh "
              "valid single- or multi-file torrent per case (kinds in distribution as mutation:*), each through show, show --json, link, "
-             "verify, dump, stats by path and two of them on stdin, in-process; corpus, deep nesting (5000..10^6, real binary only) and a "
-             "sample on the real binary. Argument strings: seeds per family (magnet, size, host:port, sort, glob, url) + one edit each, "
+             "verify, dump, stats by path and two of them on stdin, in-process; corpus, deep nesting (5000..10^6, real binary only), the "
+             "witnesses of the repaired finding deep-path-terminal (one path of 50000 and of 200000 components, 3000 files under a common "
+             "prefix of 2000 components: every show layout, terminal output counted while it streams) and a sample on the real binary; "
+             "the file tree of every accepted multi-file case in terminal layout against the oracle's and the model's. Argument strings: seeds per family (magnet, size, host:port, sort, glob, url) + one edit each, "
              "in-process through the full command line and the parser hooks; a sample plus non-UTF-8 argv on the real binary. A case is "
              "distinct/non-trivial by (mutation kind, command, exit status).",
         trusted_base=["Coq 8.16.1 kernel (coqc), vm_compute for the site table", "tools/rs2v_panics.py (GenPanicSites)",
-                      "extraction with ExtrOcamlBasic + runner/driver.d/crash.ml", "Rust hook run_cli (+ magnet_print, hostport_from_bencode, "
+                      "extraction with ExtrOcamlBasic + runner/driver.d/crash.ml", "the counting child process of run_counting (python3 -c) for "
+                      "terminal renderings too large to keep", "Rust hook run_cli (+ magnet_print, hostport_from_bencode, "
                       "bytes_parse, magnet_parse, hostport_parse) + harness line protocol", "Python generators and oracle in tools/props/c08.py"],
     )
 
@@ -950,8 +1253,14 @@ def replay(ctx, path):
         if case.get("input") is not None:
             data = unpack(case["input"])
             cmd = case["command"]
-            rc, out, err = run_real(ctx, tmp, data, cmd, case.get("via_stdin"))
-            print("impl  : rc=%s stderr=%r" % (rc, err[-300:]))
+            st = {}
+            rc, out, err = run_real(ctx, tmp, data, cmd, case.get("via_stdin"), timeout=900, stats=st)
+            print("impl  : rc=%s stdout=%d lines, %d bytes stderr=%r" % (rc, st.get("lines", 0), st.get("bytes", 0), err[-300:]))
+            if case.get("expected_lines") is not None:
+                print("oracle: %d lines expected" % case["expected_lines"])
+            want = tree_oracle(data) if len(data) <= 2000000 else None
+            if want is not None and cmd == "showterm" and rc == 0 and st.get("bytes", 0) <= 65536:
+                print("oracle: file tree %s" % ("as expected" if tree_block(out, len(want)) == want else "DIFFERS from the tree of the path lists: expected %r" % want[:40]))
             print("oracle:", abnormal(rc, err) or "normal end")
             if ctx.need_runner() and len(data) <= MODEL_MAX:
                 ext = Ext(ctx)
